@@ -474,7 +474,8 @@ def job_orch(job):
     n_alleles = np.array([2, 2, 2], np.int8)
     from mchap.assemble.likelihood import log_likelihood
 
-    llk0 = float(log_likelihood(reads, g_init))
+    rc_token = np.array([2])
+    llk0 = float(log_likelihood(reads, g_init, rc_token))
     break_dist = np.array([0.0, 1.0, 0.0])  # always one break
     gates = (0.5, 0.5, 0.5)
 
@@ -483,13 +484,15 @@ def job_orch(job):
 
         def mut(**kw):
             g = kw["genotype"]
-            calls.append(("mut", float(kw["temp"]), float(kw["llk"]), g.tolist(), float(kw["log_unique_haplotypes"]), float(kw["inbreeding"]), kw["n_alleles"].tolist()))
+            calls.append(("mut", float(kw["temp"]), float(kw["llk"]), g.tolist(), float(kw.get("log_unique_haplotypes", -1)), float(kw.get("inbreeding", -1)), kw["n_alleles"].tolist(),
+                          kw.get("read_counts", "MISSING") is rc_token, kw.get("reads") is reads))
             g[0, 0] = (g[0, 0] + 1) % 100
             return kw["llk"] * 1.5 + 1.0, kw["cache"]
 
         def strc(**kw):
             g = kw["genotype"]
-            calls.append(("str", int(kw["step_type"]), float(kw["temp"]), float(kw["llk"]), g.tolist(), np.asarray(kw["intervals"]).tolist()))
+            calls.append(("str", int(kw["step_type"]), float(kw["temp"]), float(kw["llk"]), g.tolist(), np.asarray(kw["intervals"]).tolist(),
+                          float(kw.get("log_unique_haplotypes", -1)), float(kw.get("inbreeding", -1)), kw.get("read_counts", "MISSING") is rc_token, kw.get("reads") is reads))
             g[1, 1 + int(kw["step_type"])] = (g[1, 1 + int(kw["step_type"])] + 1) % 100
             return kw["llk"] * 1.25 + 10.0 + kw["step_type"], kw["cache"]
 
@@ -499,7 +502,7 @@ def job_orch(job):
 
         def swap(**kw):
             calls.append(("swap", float(kw["temp_i"]), float(kw["temp_j"]), float(kw["llk_i"]), float(kw["llk_j"]),
-                          kw["genotype_i"].tolist(), kw["genotype_j"].tolist()))
+                          kw["genotype_i"].tolist(), kw["genotype_j"].tolist(), float(kw.get("log_unique_haplotypes", -1)), float(kw.get("inbreeding", -1))))
             if o.rand() < 0.5:
                 gi = kw["genotype_i"].copy()
                 kw["genotype_i"][:] = kw["genotype_j"]
@@ -515,7 +518,7 @@ def job_orch(job):
             (mc, "random_choice", o.random_choice),
         ):
             gt, lt = mc._denovo_assembler.py_func(
-                genotype=g_init.copy(), inbreeding=0.25, reads=reads, read_counts=None, n_alleles=n_alleles, steps=steps,
+                genotype=g_init.copy(), inbreeding=0.25, reads=reads, read_counts=rc_token, n_alleles=n_alleles, steps=steps,
                 break_dist=break_dist, recombination_step_probability=gates[0], partial_dosage_step_probability=gates[1],
                 dosage_step_probability=gates[2], temperatures=temps, return_heated_trace=heated, llk_cache_threshold=-1,
             )
@@ -532,22 +535,22 @@ def job_orch(job):
         for i in range(steps):
             for t in range(n_temps):
                 T = float(temps[t])
-                calls.append(("mut", T, ls[t], gs[t].tolist(), luh, 0.25, n_alleles.tolist()))
+                calls.append(("mut", T, ls[t], gs[t].tolist(), luh, 0.25, n_alleles.tolist(), True, True))
                 gs[t][0, 0] = (gs[t][0, 0] + 1) % 100
                 ls[t] = ls[t] * 1.5 + 1.0
                 for gate, st in ((0, 0), (1, 1)):
                     if next(it) == 0:  # uniform 0.0 <= p
                         nb = next(it)
                         calls.append(("breaks", nb, n_base))
-                        calls.append(("str", st, T, ls[t], gs[t].tolist(), [[0, 1], [1, n_base]]))
+                        calls.append(("str", st, T, ls[t], gs[t].tolist(), [[0, 1], [1, n_base]], luh, 0.25, True, True))
                         gs[t][1, 1 + st] = (gs[t][1, 1 + st] + 1) % 100
                         ls[t] = ls[t] * 1.25 + 10.0 + st
                 if next(it) == 0:
-                    calls.append(("str", 1, T, ls[t], gs[t].tolist(), [[0, n_base]]))
+                    calls.append(("str", 1, T, ls[t], gs[t].tolist(), [[0, n_base]], luh, 0.25, True, True))
                     gs[t][1, 2] = (gs[t][1, 2] + 1) % 100
                     ls[t] = ls[t] * 1.25 + 11.0
                 if t > 0:
-                    calls.append(("swap", T, float(temps[t - 1]), ls[t], ls[t - 1], gs[t].tolist(), gs[t - 1].tolist()))
+                    calls.append(("swap", T, float(temps[t - 1]), ls[t], ls[t - 1], gs[t].tolist(), gs[t - 1].tolist(), luh, 0.25))
                     if next(it) == 0:
                         gs[t], gs[t - 1] = gs[t - 1], gs[t]
                         ls[t], ls[t - 1] = ls[t - 1], ls[t]
